@@ -5,6 +5,7 @@ COG = 'photutils/profiles/curve_of_growth.py::CurveOfGrowth'
 
 
 def register(reg):
+    register_radial(reg)
     reg.record('CurveOfGrowth', {'radius': ('seq', 'real'), 'profile': ('seq', 'real')})
 
     # retained prefix = the maximal strictly increasing prefix of the profile, so that the two
@@ -33,4 +34,73 @@ def register(reg):
         mutants=[('radius[0:idx + 1]', 'radius[0:idx]'), ('profile[0:idx + 1]', 'profile[0:idx]'),
                  ('np.diff(profile) <= 0', 'np.diff(profile) < 0'),
                  ('profile[0:idx + 1]', 'profile[0:idx + 2]')],
+    ))
+
+
+def register_radial(reg):
+    """RadialProfile.profile "equals (difference of consecutive aperture sums) / (difference of
+    overlap areas) with errors propagated in quadrature, so a constant image yields that constant
+    in every bin".  `_photometry` = (sums, sum errors, overlap areas) of the nested circular
+    apertures (their values are the C02 contracts' business); `ghost_c` is a ghost field used to
+    state the constant-image lemma."""
+    RP = 'photutils/profiles/radial_profile.py::RadialProfile'
+    reg.record('RadialProfile', {
+        '_photometry': ('tuple', ('seq', 'real'), ('seq', 'real'), ('seq', 'real')),
+        '_flux': ('seq', 'real'), '_fluxerr': ('seq', 'real'), 'area': ('seq', 'real'),
+        'error': ('const', 'given'), 'ghost_c': 'real'})
+    P = 'self._photometry'
+    samelen = [f'len({P}[0]) == len({P}[2])', f'len({P}[1]) == len({P}[2])', f'len({P}[0]) >= 1']
+    reg.add(Contract(
+        target=f'{RP}._flux', props=['C19'], kind='property', params={'self': 'RadialProfile'},
+        requires=samelen,
+        ensures=[('difference-of-consecutive-sums',
+                  f'len(result) == len({P}[0]) - 1 and forall(lambda k: result[k] == '
+                  f'{P}[0][k + 1] - {P}[0][k], (0, len(result)))')],
+        returns=('seq', 'real'),
+        mutants=[('np.diff(self._photometry[0])', 'np.diff(self._photometry[2])')],
+    ))
+    reg.add(Contract(
+        target=f'{RP}.area', props=['C19'], kind='property', params={'self': 'RadialProfile'},
+        requires=samelen,
+        ensures=[('difference-of-consecutive-overlap-areas',
+                  f'len(result) == len({P}[2]) - 1 and forall(lambda k: result[k] == '
+                  f'{P}[2][k + 1] - {P}[2][k], (0, len(result)))')],
+        returns=('seq', 'real'),
+        mutants=[('np.diff(self._photometry[2])', 'np.diff(self._photometry[0])')],
+    ))
+    reg.add(Contract(
+        target=f'{RP}._fluxerr', props=['C19'], kind='property', params={'self': 'RadialProfile'},
+        requires=samelen + [f'forall(lambda k: {P}[1][k] >= 0 and {P}[1][k] <= {P}[1][k + 1], '
+                            f'(0, len({P}[1]) - 1))'],
+        ensures=[('quadrature-difference',
+                  f'len(result) == len({P}[1]) - 1 and forall(lambda k: result[k] >= 0 and '
+                  f'sq(result[k]) == sq({P}[1][k + 1]) - sq({P}[1][k]), (0, len(result)))')],
+        returns=('seq', 'real'),
+        mutants=[('np.sqrt(np.diff(self._photometry[1] ** 2))', 'np.diff(self._photometry[1])'),
+                 ('self._photometry[1] ** 2', 'self._photometry[1] ** 3')],
+    ))
+    bins = ['len(self._flux) == len(self.area)', 'len(self._fluxerr) == len(self.area)',
+            # bins with a positive overlap area (the others are NaN/inf by design: the code
+            # silences the divide-by-zero warning)
+            'forall(lambda k: self.area[k] > 0, (0, len(self.area)))']
+    reg.add(Contract(
+        target=f'{RP}.profile', props=['C19'], kind='property', params={'self': 'RadialProfile'},
+        requires=bins,
+        ensures=[('flux-difference-over-area-difference',
+                  'len(result) == len(self.area) and forall(lambda k: result[k] * self.area[k] '
+                  '== self._flux[k], (0, len(result)))'),
+                 ('constant-image-yields-the-constant',
+                  'implies(forall(lambda k: self._flux[k] == self.ghost_c * self.area[k], '
+                  '(0, len(self.area))), forall(lambda k: result[k] == self.ghost_c, '
+                  '(0, len(result))))')],
+        mutants=[('return self._flux / self.area', 'return self._flux / self._fluxerr'),
+                 ('return self._flux / self.area', 'return self.area / self._flux')],
+    ))
+    reg.add(Contract(
+        target=f'{RP}.profile_error', props=['C19'], kind='property',
+        params={'self': 'RadialProfile'}, requires=bins,
+        ensures=[('error-difference-over-area-difference',
+                  'len(result) == len(self.area) and forall(lambda k: result[k] * self.area[k] '
+                  '== self._fluxerr[k], (0, len(result)))')],
+        mutants=[('return self._fluxerr / self.area', 'return self._fluxerr / self._flux')],
     ))
